@@ -16,6 +16,8 @@
 //	     structured hostile families (C07): safety observed here, histories written for Trace_Zone.
 //	zone prefixes <out.ndjson>
 //	     every prefix of every record text of lib/zoo (every RR type), see prefixes.go.
+//	zone follow <out.ndjson>
+//	     every zoo record (every RR type) in first / second / third position of a three-record zone, see follow.go.
 //	zone insertions <texts.ndjson>
 //	     stray parentheses / quotes / backslashes inserted into the RDATA of every zoo text (texts only: they are
 //	     classified by Gen_Present and come back as "text" vectors for replay).
@@ -135,6 +137,8 @@ func main() {
 		prefixes(os.Args[2])
 	case "insertions":
 		insertions(os.Args[2])
+	case "follow":
+		follow(os.Args[2])
 	default:
 		hx.Die("unknown mode %s", os.Args[1])
 	}
